@@ -1230,6 +1230,20 @@ func ccPrograms(rng *vrt.Rand, keys [][]byte, tag *uint32, clients int, w map[st
 	for i, k := range kinds {
 		ws[i] = w[k]
 	}
+	// swarm: every run drops a random subset of the operation kinds (a bug that any plain Put masks - seeded change
+	// S58 - needs runs in which only batches write)
+	for tries := 0; tries < 8; tries++ {
+		cand := append([]int(nil), ws...)
+		for i := range cand {
+			if rng.Chance(0.3) && w[kinds[i]+"!"] == 0 { // "kind!" pins a kind
+				cand[i] = 0
+			}
+		}
+		if cand[0]+cand[1]+cand[4] > 0 {
+			ws = cand
+			break
+		}
+	}
 	out := make([][]Op, clients)
 	total := 0
 	for ci := range out {
@@ -1276,32 +1290,49 @@ func ccPrograms(rng *vrt.Rand, keys [][]byte, tag *uint32, clients int, w map[st
 
 func init() {
 	// C03(b): power loss and process crashes under concurrent writers
-	withCCrashArm("C03", 0.2, func(c *Case, rng *vrt.Rand, tier string) {
+	withCCrashArm("C03", 0.3, func(c *Case, rng *vrt.Rand, tier string) {
 		crashBudget(c, rng, tier, true)
+		if rng.Chance(0.35) {
+			mergeRace(c, rng)
+			return
+		}
 		var tag uint32
 		keys := genKeys(rng, rng.Range(1, 4))
 		c.Setup = genSetup(rng, keys, &tag)
 		w := map[string]int{"put": 6, "del": 2, "get": 1, "sync": 1, "yield": 1}
-		if rng.Chance(0.25) {
-			w["batch"] = 2
+		if rng.Chance(0.4) {
+			w["batch"] = rng.Range(2, 6)
 		}
 		c.Clients = ccPrograms(rng, keys, &tag, rng.Range(2, 4), w, 6)
-		if rng.Chance(0.2) {
+		if rng.Chance(0.35) {
+			// a merge next to the writers: whatever it relies on must be durable before it declares itself finished
+			// (engine fix 0a061cf, seeded change S58)
 			c.Clients = append(c.Clients, []Op{{K: "yield"}, {K: "merge"}})
 		}
 	})
 	// C04(b): batches committed by several clients, crashed anywhere
 	withCCrashArm("C04", 0.2, func(c *Case, rng *vrt.Rand, tier string) {
 		crashBudget(c, rng, tier, true)
+		if rng.Chance(0.35) {
+			mergeRace(c, rng, 4, 0, 0, 1)
+			return
+		}
 		var tag uint32
 		keys := genKeys(rng, rng.Range(2, 5))
 		c.Setup = genSetup(rng, keys, &tag)
-		w := map[string]int{"put": 2, "del": 1, "sync": 1, "batch": 6, "yield": 1}
+		w := map[string]int{"put": 2, "del": 1, "sync": 1, "batch": 6, "batch!": 1, "yield": 1}
 		c.Clients = ccPrograms(rng, keys, &tag, rng.Range(2, 3), w, 5)
+		if rng.Chance(0.3) {
+			c.Clients = append(c.Clients, []Op{{K: "yield"}, {K: "merge"}})
+		}
 	})
 	// C07(b): the process dies while Merge runs next to writers
-	withCCrashArm("C07", 0.2, func(c *Case, rng *vrt.Rand, tier string) {
+	withCCrashArm("C07", 0.4, func(c *Case, rng *vrt.Rand, tier string) {
 		crashBudget(c, rng, tier, false)
+		if rng.Chance(0.6) {
+			mergeRace(c, rng, 3, 1, 1, 2)
+			return
+		}
 		var tag uint32
 		keys := genKeys(rng, rng.Range(2, 5))
 		c.Setup = nil
@@ -1359,4 +1390,72 @@ func init() {
 			c.Clients = append(c.Clients, []Op{{K: "merge"}})
 		}
 	})
+}
+
+// mergeRace generates the programs of a run in which a Merge races one kind of writer: only batches (some of them
+// larger than the file-size limit, so that pieces are flushed and indexed before Commit), only Puts, only Deletes,
+// or a mix - after a setup that wrote every key, so that the merge has records to skip or keep (seeded changes
+// S58-S60: what a concurrent merge relies on must be sealed and durable before it declares itself finished).
+func mergeRace(c *Case, rng *vrt.Rand, modeW ...int) {
+	var tag uint32
+	keys := genKeys(rng, rng.Range(2, 5))
+	c.Cfg.FileSize = []int64{200, 512, 1024, 1 << 20}[rng.Intn(4)]
+	c.Setup = nil
+	for _, k := range keys {
+		for j := 0; j < rng.Range(1, 2); j++ {
+			c.Setup = append(c.Setup, Op{K: "put", Key: k, Val: smallVal(rng, &tag)})
+		}
+	}
+	mode := rng.Intn(4)
+	if len(modeW) == 4 {
+		mode = rng.Pick(modeW)
+	}
+	fat := func() *Val {
+		tag++
+		return &Val{Len: rng.Range(60, 300), Tag: tag}
+	}
+	nw := rng.Range(1, 2)
+	c.Clients = make([][]Op, nw)
+	for ci := range c.Clients {
+		for y := 0; y < rng.Intn(3); y++ {
+			c.Clients[ci] = append(c.Clients[ci], Op{K: "yield"})
+		}
+		for j := 0; j < rng.Range(1, 3); j++ {
+			k := keys[rng.Intn(len(keys))]
+			kind := mode
+			if mode == 3 {
+				kind = rng.Intn(3)
+			}
+			switch kind {
+			case 0:
+				op := Op{K: "batch", Flag: rng.Chance(0.2)}
+				big := rng.Chance(0.5)
+				for b := 0; b < rng.Range(1, 6); b++ {
+					bk := keys[rng.Intn(len(keys))]
+					switch x := rng.Intn(10); {
+					case x < 7:
+						v := smallVal(rng, &tag)
+						if big {
+							v = fat()
+						}
+						op.Sub = append(op.Sub, Op{K: "bput", Key: bk, Val: v})
+					case x < 9:
+						op.Sub = append(op.Sub, Op{K: "bdel", Key: bk})
+					default:
+						op.Sub = append(op.Sub, Op{K: "yield"})
+					}
+				}
+				c.Clients[ci] = append(c.Clients[ci], op)
+			case 1:
+				c.Clients[ci] = append(c.Clients[ci], Op{K: "put", Key: k, Val: smallVal(rng, &tag)})
+			default:
+				c.Clients[ci] = append(c.Clients[ci], Op{K: "del", Key: k})
+			}
+		}
+	}
+	var m []Op
+	for y := 0; y < rng.Intn(3); y++ {
+		m = append(m, Op{K: "yield"})
+	}
+	c.Clients = append(c.Clients, append(m, Op{K: "merge"}))
 }
